@@ -187,7 +187,7 @@ const (
 	TSchemaFields            // the descriptor map loaded from Schema.Fields
 )
 
-const closedTags = TDecoded | TLive | TCache | TPend | TSchemaPath | TObjName // closed under loads
+const closedTags = TDecoded | TLive | TCache | TPend | TSchemaPath | TObjName | TParamObj // closed under loads
 
 const dataTags = TSchemaPath | TObjName | TSchemaFields
 
